@@ -28,10 +28,12 @@ contract("C01.run_individual_tag_validators", file=T, func="TagValidator.run_ind
                                                       " any_in(result, lambda x: x.code == 'TAG_REQUIRES_CHILD' and x.severity == 1))",
              "C01.tag_rules.forbidden_extension_reported": "implies(not plain and not has_attr(original_tag, 'extensionAllowed'),"
                  " any_in(result, lambda x: x.severity == 1 and (x.code == 'TAG_EXTENSION_INVALID' or x.code == 'PLACEHOLDER_INVALID')))",
-             "C01.tag_rules.stray_placeholder_reported": "implies(not allow_placeholders and not is_definition and '#' in original_tag.extension,"
+             "C01.tag_rules.stray_placeholder_reported": "implies((not allow_placeholders or not original_tag.is_takes_value_tag())"
+                                                         " and not is_definition and '#' in original_tag.extension,"
                                                          " any_in(result, lambda x: x.code == 'PLACEHOLDER_INVALID' and x.severity == 1))",
              "C01.tag_rules.conforming_tag_no_error": "implies(plain and not has_attr(original_tag, 'requireChild')"
-                                                      " and (allow_placeholders or is_definition or '#' not in original_tag.extension),"
+                                                      " and (is_definition or '#' not in original_tag.extension"
+                                                      "      or (allow_placeholders and original_tag.is_takes_value_tag())),"
                                                       " all_in(result, lambda x: x.severity >= 10))",
          },
          calls={"check_capitalization": "C01.check_capitalization"})
